@@ -196,6 +196,9 @@ pub enum VOp {
     /// splice whose replacement iterator honestly announces a count that can never be reserved
     SpliceHuge(B, B, Vec<u32>),
     Retain(u32),
+    /// retain whose predicate panics at its k-th call (std documents the state afterwards:
+    /// unvisited elements are kept)
+    RetainPanic(u32, usize),
     DrainFilter(u32, Option<usize>, bool),
     DedupByAsym(u32),
     Dedup,
@@ -208,6 +211,8 @@ pub enum VOp {
     ShrinkToFit,
     CloneSwap,
     IntoIter(usize, usize, bool),
+    /// into_iter consumed through nth / skip / step_by (skipped elements must still be dropped)
+    IntoIterSkip(u8, usize),
     IntoBumpSlice(bool),
     IntoBoxedSlice,
     FromIterIn(Vec<u32>),
@@ -244,6 +249,7 @@ impl VOp {
             VOp::Splice(..) => "splice",
             VOp::SpliceHuge(..) => "splice-unreservable-hint",
             VOp::Retain(..) => "retain",
+            VOp::RetainPanic(..) => "retain-panicking-predicate",
             VOp::DrainFilter(_, _, false) => "drain_filter",
             VOp::DrainFilter(_, _, true) => "drain_filter-forget",
             VOp::DedupByAsym(..) => "dedup_by-asymmetric",
@@ -257,6 +263,7 @@ impl VOp {
             VOp::ShrinkToFit => "shrink_to_fit",
             VOp::CloneSwap => "clone",
             VOp::IntoIter(..) => "into_iter",
+            VOp::IntoIterSkip(..) => "into_iter-nth-skip-step_by",
             VOp::IntoBumpSlice(..) => "into_bump_slice",
             VOp::IntoBoxedSlice => "into_boxed_slice",
             VOp::FromIterIn(..) => "from_iter_in",
@@ -444,6 +451,19 @@ pub fn apply_b<'b, T: El>(b: &'b Bump, v: &mut BVec<'b, T>, op: &VOp, slices: &m
             drop(s);
             Res::Unit
         }
+        VOp::RetainPanic(m, k) => {
+            let m = *m;
+            let k = *k;
+            let mut calls = 0usize;
+            v.retain(|x| {
+                calls += 1;
+                if calls == k {
+                    std::panic::panic_any(ledger::FusePanic);
+                }
+                x.key() % m != 0
+            });
+            Res::Unit
+        }
         VOp::Retain(m) => {
             let m = *m;
             let mut seen = Vec::new();
@@ -556,6 +576,28 @@ pub fn apply_b<'b, T: El>(b: &'b Bump, v: &mut BVec<'b, T>, op: &VOp, slices: &m
             } else {
                 drop(it);
             }
+            Res::Keys(out)
+        }
+        VOp::IntoIterSkip(how, n) => {
+            let old = std::mem::replace(v, BVec::new_in(b));
+            let mut it = old.into_iter();
+            let out: Vec<u32> = match how {
+                0 => {
+                    let a = it.nth(*n).map(|x| x.key());
+                    let mut o: Vec<u32> = a.into_iter().collect();
+                    o.push(it.len() as u32 | 0x8000_0000);
+                    o.extend(it.map(|x| x.key()));
+                    o
+                }
+                1 => it.skip(*n).map(|x| x.key()).collect(),
+                2 => it.step_by(*n + 1).map(|x| x.key()).collect(),
+                _ => {
+                    let a = it.nth_back(*n).map(|x| x.key());
+                    let mut o: Vec<u32> = a.into_iter().collect();
+                    o.extend(it.rev().map(|x| x.key()));
+                    o
+                }
+            };
             Res::Keys(out)
         }
         VOp::IntoBumpSlice(m) => {
@@ -728,6 +770,19 @@ pub fn apply_s<T: El>(v: &mut Vec<T>, op: &VOp) -> Res {
             drop(s);
             Res::Unit
         }
+        VOp::RetainPanic(m, k) => {
+            let m = *m;
+            let k = *k;
+            let mut calls = 0usize;
+            v.retain(|x| {
+                calls += 1;
+                if calls == k {
+                    std::panic::panic_any(ledger::FusePanic);
+                }
+                x.key() % m != 0
+            });
+            Res::Unit
+        }
         VOp::Retain(m) => {
             let m = *m;
             let mut seen = Vec::new();
@@ -835,6 +890,28 @@ pub fn apply_s<T: El>(v: &mut Vec<T>, op: &VOp) -> Res {
             } else {
                 drop(it);
             }
+            Res::Keys(out)
+        }
+        VOp::IntoIterSkip(how, n) => {
+            let old = std::mem::take(v);
+            let mut it = old.into_iter();
+            let out: Vec<u32> = match how {
+                0 => {
+                    let a = it.nth(*n).map(|x| x.key());
+                    let mut o: Vec<u32> = a.into_iter().collect();
+                    o.push(it.len() as u32 | 0x8000_0000);
+                    o.extend(it.map(|x| x.key()));
+                    o
+                }
+                1 => it.skip(*n).map(|x| x.key()).collect(),
+                2 => it.step_by(*n + 1).map(|x| x.key()).collect(),
+                _ => {
+                    let a = it.nth_back(*n).map(|x| x.key());
+                    let mut o: Vec<u32> = a.into_iter().collect();
+                    o.extend(it.rev().map(|x| x.key()));
+                    o
+                }
+            };
             Res::Keys(out)
         }
         VOp::IntoBumpSlice(_) => {
@@ -961,7 +1038,13 @@ pub fn gen_op<T: El>(rng: &mut Rng, len: usize) -> VOp {
                 VOp::Splice(gen_bound(rng, len), gen_bound(rng, len), gen_keys(rng, 7), rng.chance(1, 2), rng.below(4))
             }
         }
-        38..=39 => VOp::Retain(rng.range(1, 5) as u32),
+        38..=39 => {
+            if rng.chance(1, 3) {
+                VOp::RetainPanic(rng.range(2, 5) as u32, rng.range(1, 8))
+            } else {
+                VOp::Retain(rng.range(1, 5) as u32)
+            }
+        }
         40..=41 => {
             let take = if rng.chance(1, 2) { None } else { Some(rng.below(4)) };
             let forget = take.is_some() && rng.chance(1, 4);
@@ -987,7 +1070,13 @@ pub fn gen_op<T: El>(rng: &mut Rng, len: usize) -> VOp {
         }
         48 => VOp::ShrinkToFit,
         49 => VOp::CloneSwap,
-        50..=51 => VOp::IntoIter(rng.below(4), rng.below(4), rng.chance(2, 3)),
+        50..=51 => {
+            if rng.chance(1, 3) {
+                VOp::IntoIterSkip(rng.below(4) as u8, rng.below(4))
+            } else {
+                VOp::IntoIter(rng.below(4), rng.below(4), rng.chance(2, 3))
+            }
+        }
         52 => VOp::IntoBumpSlice(rng.chance(1, 2)),
         53 => VOp::IntoBoxedSlice,
         54 => match rng.below(5) {
